@@ -25,7 +25,8 @@ ASSUMPTIONS = ['a released thread is waited for until it is gone, so '
                'the threads alive at that moment']
 FLOORS = {'skipped_tests_judged': 60, 'tests_judged': 1500, 'leaks_expected': 400,
           'leak_across_later_test': 200, 'ident_reuse_histories': 30,
-          'ignored_threads': 100, 'dummy_threads': 200}
+          'ignored_threads': 100, 'dummy_threads': 200,
+          'renames_in_later_tests': 40}
 BATCH_TIMEOUT = 300
 
 HEADER = 'The following test left new threads behind:'
@@ -102,6 +103,16 @@ def cases(tier, seed):
                                                 'ignored', 'midign']),
                             'rel': rel})
             hist.append(ths)
+        for i, ths in enumerate(hist):
+            for th in ths:
+                rel = th['rel']
+                last = L - 1 if rel[0] == 'never' else (
+                    rel[0] if rel[0] != 'same' else i)
+                if th['api'] in ('threading', 'timer') and last > i and \
+                        rng.random() < 0.35:
+                    th['rename_in'] = rng.randint(i + 1, last)
+                    # (before the release when both fall into one test)
+                    th['rename_ph'] = 'setUp'
         skips = []
         if rng.random() < 0.45:
             # tests skipped by decorator: they start nothing, run nothing,
@@ -109,7 +120,8 @@ def cases(tier, seed):
             skips = [i for i in range(1, L) if rng.random() < 0.4]
             for i in skips:
                 for j in range(L):
-                    hist[j] = [t for t in hist[j] if t['rel'][0] != i]
+                    hist[j] = [t for t in hist[j] if t['rel'][0] != i
+                               and t.get('rename_in') != i]
                 hist[i] = []
         out.append({'idx': idx, 'hist': hist, 'reuse': rng.random() < 0.3,
                     'skips': skips,
@@ -166,6 +178,15 @@ def run_case(case):
                         'ph': ['setUp', 'body'][(h >> 8) % 2],
                         'do': 'touch_thread', 'ev': key}))
                     keys[key]['touched_in'] = k2
+            if th.get('rename_in') is not None:
+                # the thread gets another name while a later test runs: an
+                # ignored one becomes reportable by name, a reportable one
+                # ignored - neither makes it a thread of that later test
+                newname = ('wrk-r-%d-%d' if th['name'] == 'ignored'
+                           else 'ign-r-%d-%d') % (i, k)
+                acts[th['rename_in']].append(('setUp', {
+                    'ph': th.get('rename_ph', 'body'), 'do': 'rename_thread',
+                    'ev': key, 'name': newname}))
             if rel[0] == 'same':
                 acts[i].append(('tearDown', {'ph': 'tearDown',
                                              'do': 'release', 'ev': key}))
@@ -318,6 +339,8 @@ def run_case(case):
             V('reported-threads-differ-from-ledger', mech, test=i,
               missing=[(k, started[k]) for k in missing],
               extra=[(k, started[k]) for k in extra])
+    C('renames_in_later_tests', sum(
+        1 for e in w.events if e['k'] == 'thread.rename'))
     sig = None
     if nontrivial:
         sig = [hist, case['ign'], bool(case.get('reuse'))]
